@@ -335,7 +335,10 @@ def handle_reset(config: kconfiglib.Kconfig, error: List[str], to_reset: List[st
     if remainder:
         error.append(f"Some items to reset were not symbols nor menus: {','.join(remainder)}")
 
-    missing_syms = [sym_name for sym_name in sym_names_to_reset if sym_name not in config.syms]
+    # a name that is only referenced in some expression but defined nowhere is in config.syms too, without any menu node
+    missing_syms = [
+        sym_name for sym_name in sym_names_to_reset if sym_name not in config.syms or not config.syms[sym_name].nodes
+    ]
     missing_menus = [menu_name for menu_name in menu_ids_to_reset if menu_name not in config.menu_ids]
 
     if missing_syms:
